@@ -62,7 +62,7 @@ site('MatlabWrapper.wrap_global_function',
                  set={'siteRole': "('global_function', overload, None, overload.name, False)"})])
 
 site('MatlabWrapper.wrap_class_constructors',
-     params={'namespace_name': 'str', 'inst_class': 'ref:InstantiatedClass', 'parent_name': 'str|ref:Typename',
+     params={'namespace_name': 'str', 'inst_class': 'ref:InstantiatedClass', 'parent_name': 'estr|ref:Typename',
              'ctors': 'list[ref:Constructor]', 'is_virtual': 'str'},
      loops={0: LOOP},
      holes=[dict(match=r'my_ptr = \{wrapper_name\}\(\{id\}', key='id', count='siteCount',
